@@ -26,14 +26,25 @@ Proof.
 Qed.
 Print Assumptions C19_option_change_history.
 
-(* the obligation `key_covers key_fields c19_options = true`, as a status of the
-   CURRENT source (key_fields is regenerated from CppCheck::calculateHash): either
-   all listed options are streamed, or one of them is provably absent *)
+(* THE OBLIGATION (fix 11700a7): every option of the property's list is streamed into
+   the key of the current source.  key_fields is regenerated from CppCheck::calculateHash
+   (+ the language appended by Preprocessor::calculateHash) on every run; the domain is
+   the finite regenerated table, so this is decided by computation and breaks as soon as
+   one of the 19 options is dropped again. *)
+Theorem C19_key_covers_c19 : key_covers key_fields c19_options = true.
+Proof. vm_compute. reflexivity. Qed.
+Print Assumptions C19_key_covers_c19.
+
+Theorem C19_no_listed_option_missing : missing_fields key_fields c19_options = [].
+Proof. exact (proj1 (key_covers_no_missing key_fields c19_options) C19_key_covers_c19). Qed.
+Print Assumptions C19_no_listed_option_missing.
+
+(* the same as a status for any member list the translator can emit *)
 Theorem C19_key_coverage_status : coverage_status key_fields.
 Proof. exact (coverage_status_all key_fields). Qed.
 Print Assumptions C19_key_coverage_status.
 
-(* every listed option that is absent from toolinfo can take any value without
+(* (vacuous today) every listed option that is absent from toolinfo can take any value without
    changing the key data of any unit: a cached result computed under the other
    value is reused (faithful_key fails for any analysis that depends on it) *)
 Theorem C19_missing_option_invisible f v o u :
